@@ -1,4 +1,5 @@
 import Ampy.Lemmas.Count
+import Ampy.Lemmas.EndToEnd
 /-!
 # C03 — sky coverage: hit counts, percentages and oktas are exactly what the hits imply
 
@@ -63,5 +64,36 @@ theorem C03_okta_range (n M : Nat) (t0 t8 : Rat) (hM : 0 < M) (h : n ≤ M) (a :
 theorem C03_code_prefix (okta : Int) (base : Rat) (code : String) (h : mkCode okta base = .ok code) :
     ∃ p, okta2code (.int okta) = .ok (some p) ∧ code = p ++ height2code (some base) :=
   mkCode_eq okta base code h
+
+/-- End to end: in every table of every chunk `run` returns, every row's hit count is the number of distinct
+(ceilometer, time) measurements among the hits carrying that id, its percentage is `100·count/M` with `M` the
+number of distinct measurements of the (cropped) chunk, its okta is the buffer/binning rule applied to
+`(count, M)`, lies in `0..8`, and its code starts with the WMO abbreviation of that okta. -/
+theorem C03_run_rows {α} [DecidableEq α] (K : Kern) (P : PPrms α) (checked : List (Hit α))
+    (hA : Accepted K P checked) (c : Chunk α) (h : run K P checked = .ok c) (w : Which) :
+    ∃ t ids, tableOf c w = some t ∧ idsOf c w = some ids ∧ ∀ r ∈ t,
+      r.nHits = (((members c.data ids r.cid).map fun h => (h.ceilo, h.dt)).eraseDups).length ∧
+      maxHits c.data = ((c.data.map fun h => (h.ceilo, h.dt)).eraseDups).length ∧
+      r.nHits ≤ maxHits c.data ∧
+      r.perc = (r.nHits : Rat) / (maxHits c.data : Rat) * 100 ∧
+      oktaOf r.nHits (maxHits c.data) P.t0 P.t8 = .ok r.okta ∧ 0 ≤ r.okta ∧ r.okta ≤ 8 ∧
+      ∃ p, okta2code (.int r.okta) = .ok (some p) ∧ r.code = p ++ height2code (some r.base) := by
+  obtain ⟨t, ids, ht, hi, _, hrows⟩ := run_rows K P checked hA c h w
+  obtain ⟨t', _, ht', _, _, hok, _, _⟩ := run_tableOK K P checked hA c h w
+  rw [ht] at ht'; cases ht'
+  refine ⟨t, ids, ht, hi, ?_⟩
+  intro r hr
+  obtain ⟨_, r₀, hm, he⟩ := hrows r hr
+  obtain ⟨h1, h2, h3⟩ := C03_row_counts K.toMetK P.toPrms w c.data ids r.cid r₀ hm
+  have en : r.nHits = r₀.nHits := by rw [he]
+  have ep : r.perc = r₀.perc := by rw [he]
+  have eo : r.okta = r₀.okta := by rw [he]
+  rw [en, ep, eo]
+  refine ⟨?_, C03_M_distinct c.data, ?_, h2, h3, ?_, ?_, ?_⟩
+  · rw [h1]; exact C03_nhits_distinct c.data ids r.cid
+  · rw [h1]; exact C03_nhits_le_M c.data ids r.cid
+  · rw [← eo]; exact (hok.oktas r hr).1
+  · rw [← eo]; exact (hok.oktas r hr).2
+  · rw [← eo]; exact C03_code_prefix r.okta r.base r.code (hok.codes r hr)
 
 end Ampy
